@@ -208,7 +208,7 @@ pub fn disassemble(bytes: &[u8]) -> Result<Vec<DynOpcode>> {
     // Solc has generated valid code that ends with an incomplete push, so we have
     // to handle it by treating the unterminated push and all the subsequent bytes
     // as invalid
-    if !push_bytes.is_empty() && push_bytes.len() != push_size as usize {
+    if remaining_push_bytes != 0 {
         add_op(ops, control::Invalid::new(last_push));
         push_bytes.iter().for_each(|b| add_op(ops, control::Invalid::new(*b)));
     } else if push_size != 0 {
